@@ -1058,14 +1058,16 @@ fn transcript(ops: &[Op]) -> String {
                         continue;
                     }
                     let mut cur = ids[*x];
-                    for _ in 0..(*n).min(40) {
+                    // (the whole generation range of a slot is 32768 cycles: differences at its end must show)
+                    for _ in 0..*n {
                         if cur.is_removed(&arena) {
                             break;
                         }
                         cur.remove(&mut arena);
                         cur = arena.new_node(7);
+                        ids.push(cur);
                     }
-                    ids.push(cur);
+                    out.push_str(&format!("{:?}/{};", cur, arena.count()));
                 }
             }
             // what a client can observe after the call
